@@ -1,4 +1,5 @@
 import Oidc.Proofs.World
+import Oidc.Proofs.WorldHist2
 import Oidc.Proofs.Jwt
 import Oidc.Facts
 /-! # C04 — an established session keeps working (property theorems only)
@@ -43,6 +44,20 @@ theorem jar_fixed (c : Cfg) (e0 e1 : Env) (r : Req) (v0 : View) (idRaw rt em : S
   have h := (session_continues c e0 e1 r v0 idRaw rt em fuel hrt hne hcodec hm hfuel hpath hpre hage hid hparse hacc hgrace hem hdom hrole).2.2
   show applySaves _ (serveJar c e1 r _ fuel).1.saved = _
   rw [h]; rfl
+
+/-- **history.** from the jar a successful login left in the browser, every request of any sequence of later requests — each
+    served by its own environment: any instance, any cache or limiter state, any instant within the session lifetime at which
+    the token is accepted and more than the grace period from expiry — is forwarded with the session's identity and without a
+    provider call, and the jar at the end is still the jar of the login (`Later` collects the per-request assumptions of
+    `session_continues`) -/
+theorem session_continues_history (c : Cfg) (e0 : Env) (v0 : View) (idRaw rt em : Str) (fuel : Nat)
+    (hm : 0 < c.maxSz) (hid : idRaw ≠ []) (hem : em ≠ [])
+    (hfuel : ∀ k, ((loggedInView c e0 v0 idRaw rt em).chunks k).length ≤ fuel)
+    (steps : List (Env × Req)) (hall : ∀ p ∈ steps, Later c e0 idRaw em p) :
+    (runBrowser c fuel (saveApply (loggedInView c e0 v0 idRaw rt em)) steps).1 = saveApply (loggedInView c e0 v0 idRaw rt em) ∧
+    ∀ p ∈ steps.zip (runBrowser c fuel (saveApply (loggedInView c e0 v0 idRaw rt em)) steps).2,
+      p.2.resp = .forward (downstreamHdrs c p.1.1 p.1.2 em idRaw) ∧ p.2.calls = [] ∧ p.2.saved = [] :=
+  Oidc.World.session_continues_history c e0 v0 idRaw rt em fuel hm hid hem hfuel steps hall
 
 /-- the token stays accepted between two instants at which it is accepted (no re-login in between): C02's interval property -/
 theorem accept_interval (f : Jwt.Facts) (issuer clientID : String) (keys : List Jwt.Key) (t1 t2 now : Int) (t : Jwt.Tok)
